@@ -52,6 +52,7 @@ class _Ctx:
         self.alts = []
         self.nq = 0
         self.names = {}
+        self.quotients = []
         _Ctx.counter += 1
         self.uid = _Ctx.counter
 
@@ -149,6 +150,7 @@ class Sym:
         ctx.nq += 1
         q = z3.Real("q%d_%d" % (ctx.uid, ctx.nq))
         ctx.pc.append(q * self.den == self.num)
+        ctx.quotients.append((q, self.num, self.den))
         r, _ = _check(ctx.pc + [z3.Not(z3.And(self.num >= 0, self.den > 0))], 5000)
         if r == "unsat":
             ctx.pc.append(q >= 0)
@@ -260,10 +262,11 @@ def symfloat(x=0.0):
 
 
 class Leaf:
-    def __init__(self, pc, kind, value):
+    def __init__(self, pc, kind, value, quotients=()):
         self.pc = pc
         self.kind = kind  # 'num' | 'nan' | 'exc'
         self.value = value
+        self.quotients = list(quotients)  # (q, num, den) for every named quotient of this path
 
 
 def explore(thunk, base, max_leaves=256):
@@ -290,6 +293,7 @@ def explore(thunk, base, max_leaves=256):
                 leaf = Leaf(ctx.pc, "exc", type(e).__name__ + ": " + str(e)[:80])
         finally:
             _CTX = None
+        leaf.quotients = list(ctx.quotients)
         leaves.append(leaf)
         stack.extend(ctx.alts)
         if len(leaves) > max_leaves:
@@ -336,3 +340,16 @@ def prove_all(pc, hyps, goals, timeout_ms=30000):
         if r != "unsat":
             return r, m
     return "unsat", None
+
+
+def quotient_lemmas(pc, qa, qb, timeout_ms=3000):
+    """equalities q == q' between named quotients of two runs that z3 can prove one pair at a time (each is a tiny
+    nonlinear query); they make the final comparison of two sums of quotients linear"""
+    out = []
+    for (q1, n1, d1) in qa:
+        for (q2, n2, d2) in qb:
+            r, _ = _check(list(pc) + [q1 != q2], timeout_ms)
+            if r == "unsat":
+                out.append(q1 == q2)
+                break
+    return out
